@@ -1,6 +1,7 @@
 package utils
 
 import (
+	"errors"
 	"bufio"
 	"io"
 
@@ -122,10 +123,23 @@ func ParseMultiAlignmentsAuto(f io.Closer, r *bufio.Reader, rootinputstrict bool
 		// Finally test Phylip
 		alchan.Achan = make(chan align.Alignment, 15)
 		go func() {
-			phylip.NewParser(r, rootinputstrict).Alphabet(alphabet).ParseMultiple(alchan)
+			// An input without any alignment is an error (as for the other formats):
+			// callers that take the first alignment would otherwise get a nil one
+			tmpchan := &align.AlignChannel{Achan: make(chan align.Alignment, 15)}
+			go phylip.NewParser(r, rootinputstrict).Alphabet(alphabet).ParseMultiple(tmpchan)
+			nbaligns := 0
+			for al := range tmpchan.Achan {
+				alchan.Achan <- al
+				nbaligns++
+			}
+			alchan.Err = tmpchan.Err
+			if nbaligns == 0 && alchan.Err == nil {
+				alchan.Err = errors.New("no alignment in the phylip input")
+			}
 			if f != nil {
 				f.Close()
 			}
+			close(alchan.Achan)
 		}()
 	}
 	return
